@@ -435,18 +435,40 @@ func forRuleSpecs(c *enumx.Ctx, visit func(c *enumx.Ctx, s spec)) {
 			names = append(names, n)
 		}
 		sort.Strings(names)
-		for i, n := range names {
-			if c.Tier != "thorough" && ar.table != "x86_64" && ar.table != "i386" && i%10 != 0 {
+		for _, archOp := range []string{"=", "!="} {
+			if ar.flag == "" && archOp == "!=" {
 				continue
 			}
-			if !c.Mine() {
-				continue
+			for i, n := range names {
+				if c.Tier != "thorough" && ((ar.table != "x86_64" && ar.table != "i386") || archOp == "!=") && i%10 != 0 {
+					continue
+				}
+				if !c.Mine() {
+					continue
+				}
+				var fs []filt
+				if ar.flag != "" {
+					fs = []filt{{false, "arch", archOp, ar.flag}}
+				}
+				visit(c, spec{List: "exit", Action: "always", Filters: fs, Syscalls: []string{n}})
+				// the arch filter together with other fields and keys, and two names at once
+				if i%10 == 0 && ar.flag != "" {
+					visit(c, spec{List: "exit", Action: "never", Filters: append(append([]filt{}, fs...), filt{false, "auid", ">=", "1000"}), Syscalls: []string{n + "," + names[(i+7)%len(names)]}, Keys: []string{"k"}})
+				}
 			}
-			var fs []filt
-			if ar.flag != "" {
-				fs = []filt{{false, "arch", "=", ar.flag}}
+		}
+	}
+	// prepend (-A) with filters, syscalls and keys
+	for _, fsel := range [][]filt{nil, {{false, "arch", "=", "b64"}}, {{false, "path", "=", "/etc/passwd"}, {false, "perm", "=", "wa"}}, {{false, "auid", "!=", "unset"}, {false, "exe", "=", "/bin/su"}}} {
+		for _, sc := range [][]string{nil, {"open"}, {"all"}} {
+			for _, l := range lists {
+				for _, a := range actions {
+					if !c.Mine() {
+						continue
+					}
+					visit(c, spec{Prepend: true, List: l, Action: a, Filters: fsel, Syscalls: sc, Keys: []string{"pk"}})
+				}
 			}
-			visit(c, spec{List: "exit", Action: "always", Filters: fs, Syscalls: []string{n}})
 		}
 	}
 	for _, sc := range []string{"all", "open,close", "open,all", "nosuchsyscall", ""} {
